@@ -75,6 +75,7 @@ type vpReadResult struct {
 	data  []byte
 	err   error
 	calls int
+	late  []byte // octets delivered by further Read calls after Read had returned err
 }
 
 func vpReadBody(r io.Reader, sizes []int) (res vpReadResult) {
@@ -97,6 +98,17 @@ func vpReadBody(r io.Reader, sizes []int) (res vpReadResult) {
 		res.data = append(res.data, buf[:m]...)
 		if err != nil {
 			res.err = err
+			// a reader that calls Read again (bufio, a retry loop, a second ReadAll)
+			// must not be handed anything more
+			for k := 0; k < 3; k++ {
+				m, err2 := r.Read(buf[:n])
+				if m > 0 && m <= n {
+					res.late = append(res.late, buf[:m]...)
+				}
+				if err2 == nil && m == 0 {
+					continue
+				}
+			}
 			return res
 		}
 		if m == 0 {
